@@ -680,6 +680,120 @@ def rule_R10(toks: List[Tok], which: List[str], rep: Report, fn: str) -> List[To
     return toks
 
 
+def rule_R13(toks: List[Tok], ks: List[int], rep: Report, fn: str) -> List[Tok]:
+    """V.iter()[.enumerate() | .take(N)].position(|PAT| BODY)   ->   an index loop returning the first index whose element
+    satisfies BODY (the definition of Iterator::position on a slice iterator).  Ordinals refer to the /repo text."""
+    sites = [i for i, t in enumerate(toks) if t.kind == "ident" and t.text == "position" and i > 0 and is_p(toks[i - 1], ".") and is_p(toks[i + 1], "(")]
+    for orig, k in sorted(ks, key=lambda x: -x[1]):
+        if k > len(sites):
+            raise Undecided(f"lost anchor: .position( #{orig} in {fn}")
+        i = sites[k - 1]
+        k = orig        # generated names carry the ordinal of the /repo text
+        close = match_close(toks, i + 1)
+        lo = chain_start(toks, i - 2)
+        recv = compact(toks[lo:i - 1])
+        m = re.fullmatch(r"([\w.]+)\.iter\(\)(\.enumerate\(\)|\.take\((.+)\))?", recv)
+        if not m:
+            raise Undecided(f"R13: unsupported receiver `{recv}` of .position( #{k} in {fn}")
+        v, mid, take_n = m.group(1), m.group(2) or "", m.group(3)
+        # closure: |PAT| BODY
+        a = i + 2
+        if not is_p(toks[a], "|"):
+            raise Undecided(f"R13: argument of .position( #{k} in {fn} is not a closure")
+        b = a + 1
+        while not is_p(toks[b], "|"):
+            b += 1
+        pat = compact(toks[a + 1:b])
+        body = toks[b + 1:close]
+        if any(t.kind == "ident" and t.text in ("return", "break", "continue") for t in body) or any(is_p(t, "?") for t in body):
+            raise Undecided(f"R13: closure of .position( #{k} in {fn} contains control flow")
+        idx, res = f"scan_i__{k}", f"scan_r__{k}"
+        if mid.startswith(".enumerate"):
+            mm = re.fullmatch(r"\((\w+),(\w+)\)", pat)
+            if not mm:
+                raise Undecided(f"R13: unsupported closure pattern `{pat}` in {fn}")
+            bind = f"let {mm.group(1)}: usize = {idx}; let {mm.group(2)} = &{v}[{idx}];"
+            limit = f"{idx} < {v}.len()"
+            pre = ""
+        else:
+            if not re.fullmatch(r"\w+", pat):
+                raise Undecided(f"R13: unsupported closure pattern `{pat}` in {fn}")
+            bind = f"let {pat} = &{v}[{idx}];"
+            if take_n is not None:
+                pre = f"let scan_n__{k}: usize = {take_n}; "
+                limit = f"{idx} < scan_n__{k} && {idx} < {v}.len()"
+            else:
+                pre = ""
+                limit = f"{idx} < {v}.len()"
+        first = toks[lo]
+        head = syn("{ " + pre + f"let mut {idx}: usize = 0; let mut {res}: Option<usize> = None;", first.pos, first.ws)
+        kw = Tok("ident", "while", first.pos, " ")
+        cond = syn(f"{limit} && {res}.is_none()", first.pos, " ")
+        ob = Tok("punct", "{", toks[i].pos, " ")
+        b1 = syn(bind + " if", toks[a].pos, " ")
+        tail = syn("{ " + f"{res} = Some({idx});" + " } else { " + f"{idx} += 1;" + " }", toks[close].pos, " ")
+        cb = Tok("punct", "}", toks[close].pos, " ")
+        fin = syn(f"{res} " + "}", toks[close].pos, " ")
+        body = list(body)
+        body[0] = Tok(body[0].kind, body[0].text, body[0].pos, " ")
+        toks = toks[:lo] + [head, kw, cond, ob, b1] + body + [tail, cb, fin] + toks[close + 1:]
+        rep.rule("R13 slice .iter()[.enumerate()|.take(n)].position(closure) -> index loop")
+    return toks
+
+
+def rule_R14(toks: List[Tok], ks: List[int], rep: Report, fn: str) -> List[Tok]:
+    """V.into_iter().fold(INIT, |mut ACC, ITEM| { STMTS; ACC })  ->  { let mut ACC = INIT; index loop over V binding ITEM = &V[i]; ACC }
+    (the definition of Iterator::fold for a Vec consumed in order; ITEM is only read in STMTS, checked: no move of ITEM)"""
+    sites = [i for i, t in enumerate(toks) if t.kind == "ident" and t.text == "fold" and i > 0 and is_p(toks[i - 1], ".") and is_p(toks[i + 1], "(")]
+    for k in sorted(ks, reverse=True):
+        if k > len(sites):
+            raise Undecided(f"lost anchor: .fold( #{k} in {fn}")
+        i = sites[k - 1]
+        close = match_close(toks, i + 1)
+        lo = chain_start(toks, i - 2)
+        recv = compact(toks[lo:i - 1])
+        m = re.fullmatch(r"([\w.]+)\.into_iter\(\)", recv)
+        if not m:
+            raise Undecided(f"R14: unsupported receiver `{recv}` of .fold( #{k} in {fn}")
+        v = m.group(1)
+        args = split_top(toks[i + 2:close], ",")
+        # closure may contain commas only inside its braces, so rejoin everything after the first top-level comma
+        if len(args) < 2:
+            raise Undecided(f"R14: .fold( #{k} in {fn} needs (init, closure)")
+        init = args[0]
+        first_comma = i + 2 + len(init)
+        clo = toks[first_comma + 1:close]
+        mm = re.match(r"^\|mut (\w+),(\w+)\|\{", compact(clo))
+        if not mm:
+            raise Undecided(f"R14: unsupported closure shape in .fold( #{k} in {fn}")
+        acc, item = mm.group(1), mm.group(2)
+        ob = next(j for j, t in enumerate(clo) if is_p(t, "{"))
+        cb = match_close(clo, ob)
+        inner = clo[ob + 1:cb]
+        if not (inner and inner[-1].kind == "ident" and inner[-1].text == acc and is_p(inner[-2], ";")):
+            raise Undecided(f"R14: closure of .fold( #{k} in {fn} does not end with `; {acc}`")
+        stmts = inner[:-1]
+        for j, t in enumerate(stmts):
+            if t.kind == "ident" and t.text == item and not (j + 1 < len(stmts) and is_p(stmts[j + 1], ".")) :
+                raise Undecided(f"R14: closure of .fold( #{k} in {fn} uses `{item}` other than through a field")
+        if any(t.kind == "ident" and t.text in ("return", "break", "continue") for t in stmts):
+            raise Undecided(f"R14: control flow in the closure of .fold( #{k} in {fn}")
+        idx = f"fold_i__{k}"
+        first = toks[lo]
+        init = list(init)
+        init[0] = Tok(init[0].kind, init[0].text, init[0].pos, " ")
+        stmts = list(stmts)
+        stmts[0] = Tok(stmts[0].kind, stmts[0].text, stmts[0].pos, " ")
+        new = [syn("{ " + f"let mut {acc} =", first.pos, first.ws)] + init + \
+              [syn(f"; let mut {idx}: usize = 0;", first.pos, ""), Tok("ident", "while", first.pos, " "),
+               syn(f"{idx} < {v}.len()", first.pos, " "), Tok("punct", "{", toks[i].pos, " "),
+               syn(f"let {item} = &{v}[{idx}];", toks[i].pos, " ")] + stmts + \
+              [syn(f"{idx} += 1;", toks[close].pos, " "), Tok("punct", "}", toks[close].pos, " "), syn(f"{acc} " + "}", toks[close].pos, " ")]
+        toks = toks[:lo] + new + toks[close + 1:]
+        rep.rule("R14 Vec .into_iter().fold(init, closure) -> index loop")
+    return toks
+
+
 def inject_returns(toks: List[Tok], fs: FnSpec, fnq: str) -> List[Tok]:
     """anchors on the K-th `return` keyword of the function (ordinal in the /repo text; lifts never contain one)"""
     if not fs.returns:
@@ -905,7 +1019,21 @@ class UnitBuilder:
             n_ret = sum(1 for t in body if t.kind == "ident" and t.text == "return")
             if fs.desugar_try:
                 body = rule_R10(body, fs.desugar_try, self.rep, fnq)
+            # lifts and scans are both addressed by ordinals in the /repo text: resolve the lifts first (back to front they do not
+            # disturb earlier sites), then rewrite the remaining `.position(` calls, whose ordinals are mapped accordingly
+            if fs.scans:
+                sites = [i for i, t in enumerate(body) if t.kind == "ident" and t.text == "position" and i > 0 and is_p(body[i - 1], ".") and is_p(body[i + 1], "(")]
+                lifted = sorted(lf.k for lf in fs.lifts if lf.mode == "chain" and lf.key == "position")
+                remap = {}
+                for k in fs.scans:
+                    if k in lifted:
+                        raise Undecided(f"{fnq}: .position( #{k} is both lifted and scanned")
+                    remap[k] = k - len([x for x in lifted if x < k])
             body = apply_lifts(body, fs.lifts, self.rep, fnq, leafs)
+            if fs.scans:
+                body = rule_R13(body, [(k, remap[k]) for k in fs.scans], self.rep, fnq)
+            if fs.folds:
+                body = rule_R14(body, fs.folds, self.rep, fnq)
             for k in sorted(fs.foreach, reverse=True):
                 body = rule_R7(body, k, self.rep, fnq)
             body = rule_R1(body, self.rep)
